@@ -515,7 +515,7 @@ def shipped_offset_starts(ctx, G, path):
         if sub is not None:
             conf["gridforce"]["subgrid"] = list(sub)
         cs = dict(file="forcing.nc", start_offset_steps=mm, subgrid=sub, sched=sched)
-        ctx.case(key=("shipped.offset", mm, repr(sub)), nontrivial=True)
+        ctx.case(key=("shipped.offset", mm, repr(sub), tuple(sched)), nontrivial=True)
         ctx.branch("shipped_forcing.start_offset." + ("on_frame" if mm == 0 else ("one_step" if mm == 1 else "two_or_more_steps")))
         ctx.branch("shipped_forcing.subgrid" if sub else "shipped_forcing.whole_grid"); ctx.size("shipped.offset_steps", mm)
         grid = G.Grid(conf); forc = G.Forcing(conf, grid)
